@@ -19,7 +19,8 @@ MODULE* get_module(uint64_t nn, int type, int mask) {
   if (it != g_mods.end()) return it->second;
   spqlios_verif_set_cpu_mask(mask, mask, mask);
   MODULE* m;
-  if (nn >= 2) {
+  if (nn >= 2 || type == 1) {
+    // (an NTT120 module exists for N = 1 too: its transform of size 1 is the identity)
     m = new_module_info(nn, type == 0 ? FFT64 : NTT120);
   } else {
     // nn = 1 has no FFT tables: build a bare module carrying only the generic table
